@@ -130,6 +130,22 @@ theorem readPacketOps_compressed (v : Bytes) (vs : List Bytes) (k : Nat) (d : By
         ++ [.read none, .reset, .send d, .rewind] ++ ns.map (fun n => .read (some n)) := by
   simp [readPacketOps, List.map_map, Function.comp_def, List.append_assoc]
 
+/-- The writer (`Packet.write` → `_write_buffer` with a threshold): the fields are sent into a fresh
+buffer, `get_writable` fetches the payload, `reset`, the header and body pieces `hs` (data length,
+then the deflated or the plain payload) are sent, and `get_writable` is asked twice (for the length
+prefix and for the bytes handed to the socket).  The payload is exactly the fields' concatenation,
+and both later calls return exactly the new pieces — nothing of the payload survives the `reset`. -/
+theorem write_packet_ops (fs hs : List Bytes) :
+    (run init (fs.map .send ++ [.getw, .reset] ++ hs.map .send ++ [.getw, .getw])).2
+      = [fs.flatten, hs.flatten, hs.flatten] := by
+  have e : fs.map Op.send ++ [Op.getw, Op.reset] ++ hs.map Op.send ++ [Op.getw, Op.getw]
+      = fs.map Op.send ++ ([Op.getw, Op.reset] ++ (hs.map Op.send ++ [Op.getw, Op.getw])) := by
+    simp [List.append_assoc]
+  rw [e, run_append, sends_append fs init rfl]
+  simp only [init, List.nil_append, List.length_nil, Nat.zero_add, List.cons_append, run, step]
+  rw [run_append, sends_append hs ⟨[], 0⟩ rfl]
+  simp [run, step]
+
 -- non-vacuity: a frame arriving in three segments, plain and compressed
 example : (run init (loopOps [5, 1] [[2], [3, 4]] ++ [.rewind] ++ [1, 2, 9].map (fun n => .read (some n)))).2
     = [[5, 1], [5, 1], [5, 1, 2], [5, 1, 2], [5, 1, 2, 3, 4], [5], [1, 2], [3, 4]] := by decide
@@ -137,5 +153,7 @@ example : (run init (loopOps [0x81] [[0x01, 7, 8]] ++ [.rewind]
       ++ (List.replicate 2 1).map (fun n => .read (some n))
       ++ [.read none, .reset, .send [9, 9, 9], .rewind] ++ [1, 5].map (fun n => .read (some n)))).2
     = [[0x81], [0x81], [0x81, 0x01, 7, 8], [0x81], [0x01], [7, 8], [9], [9, 9]] := by decide
+example : (run init ([[5], [1, 2]].map .send ++ [.getw, .reset] ++ [[0], [5, 1, 2]].map .send
+    ++ [.getw, .getw])).2 = [[5, 1, 2], [0, 5, 1, 2], [0, 5, 1, 2]] := by decide
 
 end PyCraft.C01BufferFrame
